@@ -88,7 +88,7 @@ def grammar(n, per, **kw):
     a.update(kw)
     return {'scen': 'grammar', 'args': a, 'n': n}
 
-P('C03', theorems=['Tcs.C03_linearizable_partial', 'Tcs.C03_from_init', 'Tcs.C03_no_overlap_5xx', 'Tcs.C03_no_double_accept', 'Tcs.C03Ex.C03_relaxation_needed',
+P('C03', theorems=['Tcs.C03_linearizable_partial', 'Tcs.C03_library_linearizable', 'Tcs.C03_linearizable_core', 'Tcs.C03_from_init', 'Tcs.C03_no_overlap_5xx', 'Tcs.C03_no_double_accept', 'Tcs.C03Ex.C03_relaxation_needed',
                    'Tcs.C03_http_run', 'Tcs.C03_http_responses', 'Tcs.C03_library_step', 'Tcs.machine_linearizable', 'Tcs.runinv_run', 'Tcs.arel_step', 'Tcs.linrel_step', 'Tcs.C03_reduction_prefix',
                    'Tcs.red_step', 'Tcs.C03_reduction', 'Tcs.C03_reduction_sublist', 'Tcs.red_init', 'Tcs.red_resp', 'Tcs.red_db'],
   module='Tcs.Props.C03Http',
